@@ -77,7 +77,7 @@ def main():
     mp = os.path.join(dst, 'meta.json')
     if os.path.exists(mp):
         old = json.load(open(mp))
-    for k in ('needs', 'what'):
+    for k in ('needs', 'what', 'history'):
         if k in old:
             meta[k] = old[k]
     json.dump(meta, open(mp, 'w'), indent=1)
